@@ -297,10 +297,24 @@ def run(ctx):
     art = common.standard_prepare(ctx, MODULES, hx=False, test=True, generated=GENERATED)
     if art.get("test"):
         explore(ctx, art)
+    # block-wise notifications of observations registered with options, served by a peer that answers every follow-up GET by
+    # its full option set and puts its ETag on some blocks only (C04's harness): each notification must keep the Observe option
+    # of its first block - without it the freshness check is skipped
+    from . import c04
+    with common.Lock():
+        t4 = common.build_test(ctx, "c04")
+    if t4:
+        c04.observe_check(ctx, t4, "C08", "observe")
     return common.finish(ctx)
 
 
 def replay(ctx, rep):
+    if rep.get("scenario") and str(rep.get("test", "")).startswith("TestC04"):
+        from . import c04
+        rc = c04.replay(ctx, rep)
+        if rc:
+            print("VIOLATION property=C08 replay=(replayed) still reproduces")
+        return rc
     art = common.standard_prepare(ctx, MODULES, hx=False, test=True, generated=GENERATED)
     lines = rep.get("input") or []
     if not lines:
